@@ -1,17 +1,49 @@
 (* C14 — Assignors give each subscribed partition exactly one subscribed owner, balanced.
-   Public statements only; models in model/C14_Assignors.v, model/C14_Sticky.v; proofs in
-   proof/C14_*.v. *)
-From Coq Require Import Arith List Bool.
-From Verif Require Import C14_Assignors C14_lists C14_range C14_rr.
+   Public statements only.  Models: model/C14_Assignors.v (range, round-robin, vocabulary),
+   model/C14_Sticky.v (checkers, StickyAbs, StickyCtl).  Proofs: proof/C14_*.v.
+
+   Vocabulary (model/C14_Assignors.v):
+     ppt : list (topic * option nat)      the cluster stub (None / absent = no metadata)
+     ms  : list (member * list topic)     the members mapping in dict order
+     triples_of out                       all (owner, (topic, partition)) facts of a result
+     valid ppt ms tr    :=  NoDup (map snd tr)                                   (at most one owner, counting multiplicity)
+                         /\ every (m, x) in tr: m subscribed to x's topic, x exists
+                         /\ every existing partition of a topic somebody subscribes to has an owner in tr
+   Hypotheses: ids_nodup ms (member ids are dict keys), subs_nodup ms (a subscription lists a
+   topic once — what the property's "every non-empty subscription" ranges over). *)
+From Coq Require Import Arith List Bool ZArith.
+From Verif Require Import C14_Assignors C14_Sticky C14_lists C14_range C14_rr C14_checkers
+  C14_sticky C14_balance.
 Import ListNotations.
 
-(* ids_nodup: member ids are dict keys; subs_nodup: a subscription lists a topic once *)
-
+(* ============================================================ range *)
 Theorem c14_range_valid : forall ppt ms, ids_nodup ms -> subs_nodup ms ->
   valid ppt ms (triples_of (range_assign ppt ms)).
 Proof. exact range_valid. Qed.
 Print Assumptions c14_range_valid.
 
+(* per topic with metadata: the i-th subscriber in id order holds exactly the contiguous
+   slice seq (start i) (len i) with n/k <= len i <= n/k + 1 *)
+Theorem c14_range_balanced : forall ppt ms t n, ids_nodup ms -> subs_nodup ms ->
+  lookup_parts ppt t = Some n ->
+  let tr := triples_of (range_assign ppt ms) in
+  let k := length (consumers_for_topic ms t) in
+  (forall m, subscribed ms m t ->
+     exists i, i < k /\ nth i (consumers_for_topic ms t) 0 = m /\
+               load_topic tr m t = seq (range_start n k i) (range_len n k i) /\
+               n / k <= range_len n k i <= n / k + 1)
+  /\ (forall m1 m2, subscribed ms m1 t -> subscribed ms m2 t ->
+        length (load_topic tr m1 t) <= length (load_topic tr m2 t) + 1).
+Proof.
+  intros ppt ms t n Hi Hs L tr k. split.
+  - exact (range_balanced ppt ms t n Hi Hs L).
+  - exact (range_within_one_per_topic ppt ms t n Hi Hs L).
+Qed.
+Print Assumptions c14_range_balanced.
+
+(* ============================================================ round-robin *)
+(* the skip loop (`while topic not in subscription: next(member_iter)`) never exhausts one
+   full turn of the cycle: the model never returns its out-of-fuel value *)
 Theorem c14_rr_terminates : forall ppt ms, ids_nodup ms -> roundrobin_assign ppt ms <> None.
 Proof.
   intros ppt ms H. unfold roundrobin_assign.
@@ -23,3 +55,139 @@ Theorem c14_rr_valid : forall ppt ms out, ids_nodup ms ->
   roundrobin_assign ppt ms = Some out -> valid ppt ms (triples_of out).
 Proof. exact rr_valid. Qed.
 Print Assumptions c14_rr_valid.
+
+Theorem c14_rr_balanced : forall ppt ms out, ids_nodup ms -> identical_subs ms ->
+  roundrobin_assign ppt ms = Some out -> within_one ms (triples_of out).
+Proof. exact rr_balanced. Qed.
+Print Assumptions c14_rr_balanced.
+
+(* ============================================================ checkers *)
+Theorem c14_checkers_sound_complete : forall ppt ms tr, ids_nodup ms ->
+  (valid_b ppt ms tr = true <-> valid ppt ms tr) /\
+  (within_one_b ms tr = true <-> within_one ms tr) /\
+  (kip54_balanced_b ms tr = true <-> kip54_balanced ms tr).
+Proof.
+  intros ppt ms tr Hi. split; [|split].
+  - apply valid_b_spec; auto.
+  - apply within_one_b_spec.
+  - apply kip54_balanced_b_spec; auto.
+Qed.
+Print Assumptions c14_checkers_sound_complete.
+
+(* ============================================================ sticky: validity *)
+(* (a) StickyAbs.  From any state with one owner per partition (what
+   _init_current_assignments builds), after the Drop every state reached by any sequence of
+   Assign / Snap / Move / Revert steps has one owner per partition, a potential consumer
+   (member, subscribed to the topic, partition exists). *)
+Theorem c14_sticky_abs_sound : forall ppt ms st0 ops st sn,
+  NoDup (map snd st0) ->
+  abs_run ppt ms (st0, None) (ADrop :: ops) = Some (st, sn) -> sound ppt ms st.
+Proof. exact abs_run_sound. Qed.
+Print Assumptions c14_sticky_abs_sound.
+
+(* (b) Assign / Snap / Move / Revert never un-own an assignable partition (also not the
+   snapshot that Revert restores); the assign loop of balance(), handed every assignable
+   partition that is not owned yet, leaves none unowned and is a sequence of accepted Assign
+   steps. *)
+Theorem c14_sticky_assign_phase_complete : forall ppt ms xs st, ids_nodup ms ->
+  (forall x, assignable ppt ms x -> (exists m, In (m, x) st) \/ In x xs) ->
+  complete ppt ms (assign_loop ppt ms st xs)
+  /\ exists l, ctl_assigns ppt ms st l = Some (assign_loop ppt ms st xs).
+Proof.
+  intros. split; [apply assign_loop_complete; auto | apply assign_loop_is_ctl].
+Qed.
+Print Assumptions c14_sticky_assign_phase_complete.
+
+Theorem c14_sticky_abs_complete_preserved : forall ppt ms ops s s', Forall no_drop ops ->
+  abs_cinv ppt ms s -> abs_run ppt ms s ops = Some s' -> abs_cinv ppt ms s'.
+Proof. exact abs_run_cinv. Qed.
+Print Assumptions c14_sticky_abs_complete_preserved.
+
+(* (c) StickyCtl — the op log of the real executor with every guard re-checked — is a
+   StickyAbs run, provided every "previous owner" (lower-generation claimant) is a potential
+   consumer of the partition it claims ... *)
+Theorem c14_sticky_ctl_refines_abs : forall ppt ms prev st0 assigns reassigns obs r,
+  prev_ok ppt ms prev -> NoDup (map snd st0) ->
+  ctl_run ppt ms prev st0 assigns reassigns obs = Some r ->
+  abs_run ppt ms (st0, None) (ctl_aops assigns reassigns (cr_reverted r))
+  = Some (cr_final r, Some (cr_prebalance r)).
+Proof. exact ctl_run_is_abs_run. Qed.
+Print Assumptions c14_sticky_ctl_refines_abs.
+
+(* ... and then its result (as well as the prebalance copy and the pre-revert state) is a
+   valid assignment. *)
+Theorem c14_sticky_valid : forall ppt ms prev st0 assigns reassigns obs r,
+  ids_nodup ms -> prev_ok ppt ms prev -> NoDup (map snd st0) ->
+  ctl_run ppt ms prev st0 assigns reassigns obs = Some r ->
+  valid ppt ms (cr_final r) /\ valid ppt ms (cr_prebalance r) /\ valid ppt ms (cr_balanced r).
+Proof. exact ctl_run_valid. Qed.
+Print Assumptions c14_sticky_valid.
+
+(* Without [prev_ok] the statement is false, and the real executor exhibits it (finding F2,
+   replayed against /repo by the harness: corpus/C14/stale_claimant.json): t0 has 3
+   partitions, t1 one; C0 subscribes [t0] and claims t0-0..2 with generation 2, C1 subscribes
+   [t1] and still claims t0-0 with generation 1, C2 subscribes [t0, t1].  The accepted run moves
+   t0-0 "back" to C1, which is not subscribed to t0. *)
+Definition C14_sticky_valid_full : Prop :=
+  forall ppt ms prev st0 assigns reassigns obs r,
+    ids_nodup ms -> NoDup (map snd st0) ->
+    ctl_run ppt ms prev st0 assigns reassigns obs = Some r -> valid ppt ms (cr_final r).
+
+Theorem c14_sticky_valid_full_refuted : ~ C14_sticky_valid_full.
+Proof.
+  intros H.
+  pose (ppt := [(0, Some 3); (1, Some 1)]).
+  pose (ms := [(0, [0]); (1, [1]); (2, [0; 1])]).
+  pose (claims := [(0, 2%Z, [(0, 0); (0, 1); (0, 2)]); (1, 1%Z, [(0, 0)]); (2, (-1)%Z, [])]).
+  pose (assigns := [((1, 0), 1)]).
+  pose (reassigns := [(((0, 0), 1), (0, 0)); (((0, 1), 2), (0, 1))]).
+  destruct (ctl_run ppt ms (snd (init_current claims)) (fst (init_current claims)) assigns reassigns false)
+    as [r|] eqn:E; [|vm_compute in E; discriminate].
+  assert (Hv : valid ppt ms (cr_final r)).
+  { apply (H ppt ms (snd (init_current claims)) (fst (init_current claims)) assigns reassigns false r).
+    - unfold ids_nodup. simpl. repeat (constructor; [simpl; intuition discriminate|]). constructor.
+    - apply nodup_tp_b_spec. vm_compute. reflexivity.
+    - exact E. }
+  apply (valid_b_spec ppt ms) in Hv.
+  - vm_compute in E. inversion E; subst r. vm_compute in Hv. discriminate.
+  - unfold ids_nodup. simpl. repeat (constructor; [simpl; intuition discriminate|]). constructor.
+Qed.
+Print Assumptions c14_sticky_valid_full_refuted.
+
+(* ============================================================ sticky: balance *)
+(* Full statement: the returned assignment is always KIP-54 balanced. *)
+Definition C14_sticky_balanced_full : Prop :=
+  forall ppt ms prev st0 assigns reassigns obs r,
+    ids_nodup ms -> prev_ok ppt ms prev -> NoDup (map snd st0) ->
+    ctl_run ppt ms prev st0 assigns reassigns obs = Some r -> kip54_balanced ms (cr_final r).
+
+(* Proved part: the state in which the reassignment loop stops is KIP-54 balanced (exit via
+   `_is_balanced()` or via a pass without a trigger), hence so is the result whenever the
+   prebalance copy is not restored.  Missing: that `balance()` never restores an unbalanced
+   prebalance copy (the score comparison is not shown to imply it).  The bounded enumeration
+   found no input where the real code returns an unbalanced assignment. *)
+Theorem c14_sticky_balanced_partial : forall ppt ms prev st0 assigns reassigns obs r,
+  ids_nodup ms -> prev_ok ppt ms prev -> NoDup (map snd st0) ->
+  ctl_run ppt ms prev st0 assigns reassigns obs = Some r ->
+  kip54_balanced ms (cr_balanced r) /\
+  (cr_reverted r = false -> kip54_balanced ms (cr_final r)).
+Proof. exact ctl_run_balanced. Qed.
+Print Assumptions c14_sticky_balanced_partial.
+
+(* ============================================================ non-vacuity *)
+Example c14_examples :
+  range_assign [(0, Some 3); (1, Some 3)] [(0, [0; 1]); (1, [0; 1])]
+    = [(0, [(0, [0; 1]); (1, [0; 1])]); (1, [(0, [2]); (1, [2])])]
+  /\ roundrobin_assign [(0, Some 3); (1, Some 3)] [(0, [0; 1]); (1, [0; 1])]
+    = Some [(0, [(0, [0; 2]); (1, [1])]); (1, [(0, [1]); (1, [0; 2])])]
+  /\ roundrobin_assign [(0, Some 1); (1, Some 2); (2, Some 3)] [(0, [0]); (1, [0; 1]); (2, [0; 1; 2])]
+    = Some [(0, [(0, [0])]); (1, [(1, [0])]); (2, [(1, [1]); (2, [0; 1; 2])])].
+Proof. vm_compute. auto. Qed.
+
+(* an accepted sticky log with a Move and the hypotheses of c14_sticky_valid *)
+Example c14_sticky_hyps_satisfiable :
+  exists r, ctl_run [(0, Some 1); (1, Some 5)] [(0, [1]); (1, [1]); (2, [1])] []
+              [(0, (1, 2)); (0, (1, 3)); (0, (1, 4)); (1, (1, 0)); (1, (1, 1))] []
+              [(((1, 4), 2), (1, 4))] false = Some r
+            /\ cr_reverted r = false.
+Proof. eexists. split; [vm_compute; reflexivity | reflexivity]. Qed.
